@@ -18,7 +18,8 @@ through the real `core_ports.load` with persisted data {"enabled": true, "value"
 Commands: ["Tick"], ["Advance", ms], ["SetSource", p, v], ["CompleteRead", p, "val"|"skip"|"err"],
 ["CompleteWrite", p, "ok"|"exc"|"timeout"] (exc = PortError, timeout = PortTimeout), ["ApiWrite", p, v], ["SetSequence", p, values, delays, repeat], ["SetAttr", p, n] (display_name := "n<n>"; runs a polling pass), ["Reset", p],
 ["CancelWaitingReader", p] (cancels one reset() task that waits in p's read guard, if any),
-["Disable", p] / ["Enable", p] (PATCH /ports/p {"enabled": ...} through the real patch_port), ["SetExpr", p, text],
+["Remove", p] (port.remove(): cleanup() cancels the write loop and the eval loop; afterwards p is not observed by Snap and is
+not expected to answer its pending tickets - notes/C14.md finding 2), ["Disable", p] / ["Enable", p] (PATCH /ports/p {"enabled": ...} through the real patch_port), ["SetExpr", p, text],
 ["Load", p, v].
 
 Events (per port; see coq/theories/C14/Model.v):
@@ -123,6 +124,7 @@ class Env:
                 self.waiting = {}        # task -> src: callers inside read_transformed_value, before the driver call
                 self.tw = {}             # task -> record of the transform_and_write_value call in progress
                 self.api_ticket = {}     # task -> ticket submitted by the API call running in that task
+                self.hremoved = False    # a Remove command was issued: no more Snap, the port is not expected to drain
                 env.run.ports[port_id] = self
                 self._wrap_queue()
 
@@ -235,6 +237,10 @@ class Env:
             async def _read_finish(self, src, fut):
                 try:
                     outcome = await fut
+                except asyncio.CancelledError:
+                    if not env.run.finished:
+                        env.run.log(self.get_id(), 'ReadEnd', src, 'err')
+                    raise
                 finally:
                     if fut in self.pending_reads:
                         self.pending_reads.remove(fut)
@@ -277,6 +283,11 @@ class Env:
             async def _write_finish(self, in_loop, fut, value):
                 try:
                     outcome = await fut
+                except asyncio.CancelledError:
+                    # the caller was cancelled (cleanup() cancels the write loop): this driver call is over
+                    if not env.run.finished:
+                        env.run.log(self.get_id(), 'WriteEnd' if in_loop else 'DirectEnd', 'exc')
+                    raise
                 finally:
                     if fut in self.pending_writes:
                         self.pending_writes.remove(fut)
@@ -388,6 +399,7 @@ class Run:
         self.update_depth = {}
         self.submitted = {}
         self.tick_task = None
+        self.finished = False
         self.tasks = []
         self.api_tasks = {}       # task -> port id, for ApiWrite commands
         self.seq = 0
@@ -444,6 +456,8 @@ class Run:
     def snap(self):
         for pid, port in self.ports.items():
             tr = self.events.get(pid)
+            if port.hremoved:
+                continue        # cleanup() leaves _writing and the queue as they were; the model stops at the cancellation
             if tr and tr[-1][0] == 'Snap':
                 continue        # nothing happened on this port since its last observation
             r, w = getattr(port, '_reading', None), getattr(port, '_writing', None)
@@ -502,7 +516,8 @@ class Run:
 
         # drain: let every suspended call finish, then check that nothing is left behind
         self.glog.append([self.seq, vloop.vtime_ms(), '-', 'CMD', 'Drain'])
-        for _ in range(400):
+        any_removed = any(p.hremoved for p in self.ports.values())
+        for _ in range(6 if any_removed else 400):
             busy = False
             for port in self.ports.values():
                 while port.complete_read('val'):
@@ -511,7 +526,7 @@ class Run:
                     busy = True
             await self.settle()
             pending = any(p.pending_reads or p.pending_writes or p._write_value_queue.qsize() or p._reading or p._writing
-                          or p._sequence is not None for p in self.ports.values())
+                          or p._sequence is not None for p in self.ports.values() if not p.hremoved)
             unfinished = any(not t.done() for t in self.tasks) or (self.tick_task is not None and not self.tick_task.done())
             if not busy and not pending and not unfinished:
                 break
@@ -525,8 +540,10 @@ class Run:
                 'undelivered': [t for t in self.submitted.get(pid, []) if t not in delivered],
                 'qsize': port._write_value_queue.qsize(),
                 'pending_reads': len(port.pending_reads), 'pending_writes': len(port.pending_writes),
+                'removed': port.hremoved,
             }
         self.final = final
+        self.finished = True
 
     async def do(self, cmd):
         env = self.env
@@ -583,6 +600,12 @@ class Run:
                     if src == 'load' and not task.done():
                         task.cancel()
                         break
+        elif name == 'Remove':
+            # the port is removed (DELETE /ports/p, peripheral removal, shutdown): cleanup() cancels its tasks
+            p = self.ports.get(cmd[1])
+            if p is not None and not p.hremoved:
+                p.hremoved = True
+                self.spawn(p.remove(persisted_data=False), 'Remove %s' % cmd[1])
         elif name == 'Load':
             pid, v = cmd[1], cmd[2]
             if pid in self.ports or pid not in self.classes:
